@@ -210,7 +210,16 @@ func (b *build) runRealCase(doc []docAgent, c realCase, n int) (sig, detail stri
 		_ = os.WriteFile(filepath.Join(base, "other-skill", "SKILL.md"), []byte("other"), 0o640)
 	}
 	pre := snapshotReal(root)
-	r := drv.Run(cwd, 2*time.Minute, []string{"HOME=" + home}, b.kessoku, args...)
+	// half of the runs happen under a restrictive umask: the documented mode 0644 must not depend on it
+	um := "022"
+	if n%2 == 1 {
+		um = "077"
+	}
+	quoted := make([]string, 0, len(args)+1)
+	for _, a := range append([]string{b.kessoku}, args...) {
+		quoted = append(quoted, "'"+strings.ReplaceAll(a, "'", `'\''`)+"'")
+	}
+	r := drv.Run(cwd, 2*time.Minute, []string{"HOME=" + home}, "sh", "-c", "umask "+um+"; exec "+strings.Join(quoted, " "))
 	post := snapshotReal(root)
 	if r.Code == -2 {
 		drv.Broken("real CLI run timed out: %v", args)
